@@ -1719,6 +1719,9 @@ class Scheduler:
             if job.recording_provenance():
                 self.backend.record_job_start(job)
 
+            # This job may have been nominated to run with resources that it now will not
+            # consume, so give the jobs still waiting for resources another chance.
+            self._check_jobs_pending_limits()
             return
 
         # Check cache for job.
@@ -1744,6 +1747,10 @@ class Scheduler:
             # There's no work to do, but be sure we consider it started.
             if job.recording_provenance():
                 self.backend.record_job_start(job)
+
+            # This job may have been nominated to run with resources that it now will not
+            # consume, so give the jobs still waiting for resources another chance.
+            self._check_jobs_pending_limits()
 
             # Trigger downstream steps, just like an executor would, upon completing it.
             # One of the roles of `done_job` is to trigger evaluation on `result`, in case it is
